@@ -719,9 +719,14 @@ class DataAccessObject(HasGeneric[T]):
             argument_names, state
         )
 
-        init_args = {**base_kwargs, **kwargs}
+        # what belongs to an alternatively mapped ancestor went through its mapping and comes back through it
+        init_args = {**kwargs, **base_kwargs}
         self._call_initializer_or_assign(result, init_args)
 
+        # not for what came back through the mapping of an ancestor: the DAO holds the mapped value
+        circular_refs = {
+            key: value for key, value in circular_refs.items() if key not in base_kwargs
+        }
         self._apply_circular_fixes(result, circular_refs, state)
 
         if isinstance(result, AlternativeMapping):
@@ -823,15 +828,19 @@ class DataAccessObject(HasGeneric[T]):
         if base is not None:
             parent_dao = base()
             parent_mapper = sqlalchemy.inspection.inspect(base)
+            mapped_by_parent = set()
             for column in parent_mapper.columns:
                 if is_data_column(column):
                     setattr(parent_dao, column.name, getattr(self, column.name))
+                    mapped_by_parent.add(column.name)
             for rel in parent_mapper.relationships:
                 setattr(parent_dao, rel.key, getattr(self, rel.key))
+                mapped_by_parent.add(rel.key)
             state.keep_alive.append(parent_dao)
             base_result = parent_dao.from_dao(state=state)
             for argument in argument_names:
-                if argument not in base_kwargs and not hasattr(self, argument):
+                # also the arguments that keep their name in the mapping: the DAO holds the mapped value
+                if argument in mapped_by_parent or not hasattr(self, argument):
                     try:
                         base_kwargs[argument] = getattr(base_result, argument)
                     except AttributeError:
